@@ -48,6 +48,12 @@ def main(argv=None):
         args.tier = "quick"
 
     common.assert_repo_under_test()
+    # Part of the environment a library runs in: applications and test suites escalate warnings to errors
+    # (python -W error, pytest filterwarnings = error).  Whatever the library itself warns about - in its own
+    # frames or, with stacklevel=2, in its caller's - therefore surfaces as the exception it would be there.
+    import warnings
+
+    warnings.filterwarnings("error", module=r"(edgegraph|egverif)(\.|$)")
     prop = args.prop.upper()
     mod = importlib.import_module(f"egverif.props.{prop.lower()}")
     ctx = common.Ctx(prop, args.tier, args.seed, LEVELS.get(prop, "exploration"))
